@@ -307,9 +307,16 @@ def parse_facebook_url(url, allow_relative_urls=False):
     # NOTE: truncated urls (e.g. "facebook.com/groups/") lack the path parts
     # or query items their route announces
     try:
-        return _parse_facebook_url(url, allow_relative_urls=allow_relative_urls)
+        result = _parse_facebook_url(url, allow_relative_urls=allow_relative_urls)
     except (IndexError, KeyError):
         return None
+
+    # NOTE: an empty path segment ("facebook.com/groups//x") or an empty
+    # query value does not identify anything
+    if result is not None and any(getattr(result, k) == "" for k in result.__slots__):
+        return None
+
+    return result
 
 
 def _parse_facebook_url(url, allow_relative_urls=False):
